@@ -102,7 +102,8 @@ def named_values():
     return sorted({int(m) for m in IMEMRegisters})
 
 
-def run_paths(prefix, opcode, n, b2_set=None, N=3, temps="sym", max_paths=6000, timeout_ms=20000, named_limit=None, deadline_s=None):
+def run_paths(prefix, opcode, n, b2_set=None, N=3, temps="sym", max_paths=6000, timeout_ms=20000, named_limit=None, deadline_s=None,
+              sym_pc=False, want_info=False, render=True):
     """Explore one class; returns (list of per-path dicts, Stats)."""
     setup()
     from engines.pysym.machine import SymMemory, make_emulator, post_regs
@@ -127,6 +128,11 @@ def run_paths(prefix, opcode, n, b2_set=None, N=3, temps="sym", max_paths=6000, 
             isn = [z3.Or(*[b.t == core._bv(v) for v in nv]) for b in obytes]
             eng.assume(z3.AtMost(*isn, named_limit))
         code += [0] * 8  # the decoder looks ahead into the next instruction: NOPs follow
+        if sym_pc:
+            PC0 = SymInt.var("pc", 20)
+            eng.assume((PC0 + 16 <= 0x100000).t)
+        else:
+            PC0 = globals()["PC0"]
         mem = SymMemory("M", PC0, code)
         emu, pre = make_emulator(mem, temps=temps)
         instr = emu.decode_instruction(PC0)
@@ -138,11 +144,21 @@ def run_paths(prefix, opcode, n, b2_set=None, N=3, temps="sym", max_paths=6000, 
         if name in COUNTED:
             eng.assume((pre["I"] >= 1).t)
             eng.assume((pre["I"] <= N).t)
-        tokens = instr.render()
-        mn, ops = O.parse_tokens(tokens, eng.handles)
-        text = "".join(str(t) for t in tokens)
+        if render:
+            tokens = instr.render()
+            mn, ops = O.parse_tokens(tokens, eng.handles)
+            text = "".join(str(t) for t in tokens)
+        else:
+            mn, ops, text = name, [], name
         nlog = len(mem.log)
-        out = {"kind": "exec", "mn": mn, "ops": ops, "text": text, "len": n, "pre": pre, "mem": mem}
+        out = {"kind": "exec", "mn": mn, "ops": ops, "text": text, "len": n, "pre": pre, "mem": mem, "pc": PC0, "cond": getattr(instr, "_cond", None)}
+        if want_info:
+            from sc62015.arch import SC62015
+            from engines.pysym.containers import SymBytes
+
+            arch = SC62015.__new__(SC62015)
+            info = arch.get_instruction_info(SymBytes(code[:n]), PC0)
+            out["info"] = None if info is None else (info.length, [(str(getattr(b.type, "name", b.type)), b.target) for b in info.branches])
         try:
             emu.execute_instruction(PC0)
         except core.PysymAbort:
